@@ -3,6 +3,7 @@
 use super::common::*;
 use crate::form::*;
 use crate::json::J;
+use crate::libg;
 use crate::net::NetOpts;
 use crate::rng::Rng;
 use crate::runner::{CaseOut, CheckDef, Tier};
@@ -16,7 +17,7 @@ pub fn def() -> CheckDef {
         salt: 0xC15,
         level: "exploration",
         rule: "random networks x closed formulae needing 0..3 spare variable sets, each evaluated on graphs built with k = need, need+1, need+2, need+5 \
-               spare sets: (a) all sanitised results are the identical BDD; (b) the sanitised BDD lives in the canonical context (same number of \
+               spare sets and on a graph whose variables have different numbers (>= need) of spare copies: (a) all sanitised results are the identical BDD; (b) the sanitised BDD lives in the canonical context (same number of \
                BDD variables as SymbolicAsyncGraph::new(bn), combinable with that graph's sets); (c) for every state and enumerated colour the \
                sanitised and the raw result agree; (d) raw results for different k agree point-wise. Non-trivial: result neither empty nor unit \
                and the formula has a state variable; distinct by (network, formula).",
@@ -58,9 +59,19 @@ fn run(rng: &mut Rng, idx: u64, tier: Tier) -> CaseOut {
     let empty = HashMap::new();
     let mut sanitised = Vec::new();
     let mut raw_states = Vec::new();
-    for extra in [0u16, 1, 2, 5] {
-        let k = need + extra;
-        let sys = match build(&world, k) {
+    // the last graph gives every variable its own number (>= need) of spare copies
+    for extra in [0u16, 1, 2, 5, 99] {
+        let k = need + if extra == 99 { 0 } else { extra };
+        let built = if extra == 99 {
+            let counts: Vec<u16> = (0..world.n()).map(|_| need + rng.below(3) as u16).collect();
+            match libg::guarded(|| libg::build_sys_uneven(&world.net, &counts, &world.cs.bits)) {
+                Ok(r) => r,
+                Err(p) => Err(format!("PANIC {p}")),
+            }
+        } else {
+            build(&world, k)
+        };
+        let sys = match built {
             Ok(s) => s,
             Err(e) => return discard(&world, &e),
         };
